@@ -1,34 +1,555 @@
 package main
 
 import (
+	"bytes"
+	"encoding/json"
 	"fmt"
 	"os"
+	"os/exec"
+	"path/filepath"
+	"sort"
+	"strings"
+	"time"
+
+	"verif/engine/sx"
 )
 
 type nativeStats struct {
-	Validated     int
-	Disagreements int
-	Replayed      int
-	Confirmed     int
-	Unconfirmed   int
-	Notes         []string
+	Validated     int      `json:"validated"`
+	Disagreements int      `json:"disagreements"`
+	Notes         []string `json:"notes,omitempty"`
 }
 
-func (r *checkRun) nativeValidate(res *unitResult) {}
+type vCase struct {
+	ID     string            `json:"id"`
+	Entry  string            `json:"entry"`
+	Model  map[string]uint64 `json:"model"`
+	Params map[string]int64  `json:"params"`
+}
+
+type nativeOut struct {
+	lines []string
+	end   string
+	found bool
+}
+
+func replayMode(u *UnitSpec) string {
+	if u.Replay == "" {
+		return "native"
+	}
+	return u.Replay
+}
+
+// nativeRun compiles the harness against the real packages with `go test -overlay` and runs the cases.
+func nativeRun(res *unitResult, cases []vCase, keepDir string) (map[string]*nativeOut, string, error) {
+	u := res.spec
+	tmp := keepDir
+	if tmp == "" {
+		var err error
+		tmp, err = os.MkdirTemp("", "gosmt-native-")
+		if err != nil {
+			return nil, "", err
+		}
+		defer os.RemoveAll(tmp)
+	} else {
+		os.MkdirAll(tmp, 0o755)
+	}
+	_, pkgName, files, err := buildOverlay(u, "native")
+	if err != nil {
+		return nil, "", err
+	}
+	overlay := map[string]string{}
+	i := 0
+	for virt, content := range files {
+		real := filepath.Join(tmp, fmt.Sprintf("f%d_%s", i, filepath.Base(virt)))
+		i++
+		if err := os.WriteFile(real, content, 0o644); err != nil {
+			return nil, "", err
+		}
+		overlay[virt] = real
+	}
+	entries := map[string]bool{}
+	for _, c := range cases {
+		entries[c.Entry] = true
+	}
+	var sb strings.Builder
+	fmt.Fprintf(&sb, "package %s\n\nimport \"testing\"\n\nfunc TestVerifReplay(t *testing.T) {\n\tvRunCases(map[string]func(){\n", pkgName)
+	var es []string
+	for e := range entries {
+		es = append(es, e)
+	}
+	sort.Strings(es)
+	for _, e := range es {
+		fmt.Fprintf(&sb, "\t\t%q: %s,\n", e, e)
+	}
+	sb.WriteString("\t})\n}\n")
+	testReal := filepath.Join(tmp, "zz_verif_replay_test.go")
+	os.WriteFile(testReal, []byte(sb.String()), 0o644)
+	overlay[filepath.Join(res.pkgDir, "zz_verif_replay_test.go")] = testReal
+	ov, _ := json.MarshalIndent(map[string]interface{}{"Replace": overlay}, "", " ")
+	ovPath := filepath.Join(tmp, "overlay.json")
+	os.WriteFile(ovPath, ov, 0o644)
+	cj, _ := json.MarshalIndent(cases, "", " ")
+	casesPath := filepath.Join(tmp, "cases.json")
+	os.WriteFile(casesPath, cj, 0o644)
+
+	cmdline := fmt.Sprintf("cd %s && VERIF_CASES=%s GOFLAGS=-mod=mod GOPROXY=off GOSUMDB=off GOTOOLCHAIN=local go test -vet=off -count=1 -run '^TestVerifReplay$' -overlay %s %s",
+		res.loadDir, casesPath, ovPath, res.pattern)
+	if keepDir != "" {
+		os.WriteFile(filepath.Join(tmp, "replay.sh"), []byte("#!/bin/sh\n# re-runs the stored counterexample(s) against the real build; prints the native trace\n"+cmdline+" -v\n"), 0o755)
+	}
+	cmd := exec.Command("go", "test", "-v", "-vet=off", "-count=1", "-timeout", "300s", "-run", "^TestVerifReplay$", "-overlay", ovPath, res.pattern)
+	cmd.Dir = res.loadDir
+	cmd.Env = append(os.Environ(), "VERIF_CASES="+casesPath, "GOFLAGS=-mod=mod", "GOPROXY=off", "GOSUMDB=off", "GOTOOLCHAIN=local")
+	var out bytes.Buffer
+	cmd.Stdout = &out
+	cmd.Stderr = &out
+	runErr := cmd.Run()
+	outs := map[string]*nativeOut{}
+	var cur *nativeOut
+	for _, l := range strings.Split(out.String(), "\n") {
+		switch {
+		case strings.HasPrefix(l, "=== VCASE "):
+			cur = &nativeOut{}
+			outs[strings.TrimPrefix(l, "=== VCASE ")] = cur
+		case strings.HasPrefix(l, "=== VEND "):
+			if cur != nil {
+				cur.found = true
+			}
+			cur = nil
+		case cur != nil:
+			if strings.HasPrefix(l, "END ") {
+				cur.end = strings.TrimPrefix(l, "END ")
+			} else if l != "" {
+				cur.lines = append(cur.lines, l)
+			}
+		}
+	}
+	if os.Getenv("GOSMT_NATIVE_DEBUG") != "" {
+		fmt.Fprintf(os.Stderr, "native output (%v):\n%s\n", runErr, out.String())
+	}
+	if len(outs) == 0 && runErr != nil {
+		o := out.String()
+		if len(o) > 3000 {
+			o = o[:3000]
+		}
+		return nil, cmdline, fmt.Errorf("native run failed: %v\n%s", runErr, o)
+	}
+	return outs, cmdline, nil
+}
+
+// expectedLines renders what the engine computed for a sampled path, in the native output format.
+func expectedLines(s *sx.Sample) []string {
+	var ls []string
+	for _, a := range s.Events {
+		ls = append(ls, a)
+	}
+	return ls
+}
+
+func filterCompare(lines []string) []string {
+	var r []string
+	for _, l := range lines {
+		if strings.HasPrefix(l, "ASSERT ") || strings.HasPrefix(l, "REACH ") || strings.HasPrefix(l, "OBS ") {
+			r = append(r, l)
+		}
+	}
+	return r
+}
+
+type confirmedViolation struct {
+	unit      *unitResult
+	v         *sx.Violation
+	confirmed bool
+	how       string
+	note      string
+	replayDir string
+	known     *KnownFinding
+}
+
+// nativeValidate validates sampled paths of a unit against the real build.
+func (r *checkRun) nativeValidate(res *unitResult) {
+	if res.report == nil || replayMode(res.spec) != "native" {
+		return
+	}
+	var cases []vCase
+	for i, s := range res.report.Samples {
+		cases = append(cases, vCase{ID: fmt.Sprintf("s%d", i), Entry: res.spec.Entry, Model: s.Model, Params: res.tier.Params})
+	}
+	if len(cases) == 0 {
+		return
+	}
+	outs, _, err := nativeRun(res, cases, "")
+	if err != nil {
+		res.natives.Notes = append(res.natives.Notes, err.Error())
+		return
+	}
+	for i, s := range res.report.Samples {
+		o := outs[fmt.Sprintf("s%d", i)]
+		if o == nil || !o.found {
+			res.natives.Notes = append(res.natives.Notes, fmt.Sprintf("sample %d: no native output", i))
+			continue
+		}
+		exp := expectedLines(s)
+		got := filterCompare(o.lines)
+		ok := len(exp) == len(got) && (s.End != "done" || o.end == "done")
+		if ok {
+			for k := range exp {
+				if exp[k] != got[k] {
+					ok = false
+					break
+				}
+			}
+		}
+		res.natives.Validated++
+		if !ok {
+			res.natives.Disagreements++
+			res.natives.Notes = append(res.natives.Notes, fmt.Sprintf("sample %d disagrees: engine=%v(end %s) native=%v(end %s) model=%v", i, exp, s.End, got, o.end, s.Model))
+		}
+	}
+}
+
+// confirm replays a violation: natively when the unit allows it, otherwise by concrete re-execution
+// of the real SSA in the engine under the model.
+func (r *checkRun) confirm(res *unitResult, v *sx.Violation, n int) *confirmedViolation {
+	cv := &confirmedViolation{unit: res, v: v}
+	dir := filepath.Join(verifRoot, "replays", r.id, fmt.Sprintf("%s-%d", res.spec.Name, n))
+	os.RemoveAll(dir)
+	os.MkdirAll(dir, 0o755)
+	cv.replayDir = dir
+	mj, _ := json.MarshalIndent(v, "", " ")
+	os.WriteFile(filepath.Join(dir, "violation.json"), mj, 0o644)
+
+	// step 1: concrete re-execution in the engine (always)
+	opt := res.opt
+	opt.Workers = 1
+	opt.FixedModel = v.Model
+	if opt.FixedModel == nil {
+		opt.FixedModel = map[string]uint64{}
+	}
+	opt.FixedChoices = v.Choices
+	opt.StopAtFirst = false
+	opt.Deadline = time.Now().Add(120 * time.Second)
+	rep := sx.Explore(res.prog, opt)
+	engineOK := false
+	for _, x := range rep.Violations {
+		if x.Kind == v.Kind && x.Label == v.Label {
+			engineOK = true
+		}
+	}
+	if !engineOK {
+		cv.how = "engine"
+		cv.note = fmt.Sprintf("concrete re-execution under the model did not reproduce the violation (paths=%d unsup=%v)", rep.Paths, rep.UnsupReasons)
+		return cv
+	}
+	if replayMode(res.spec) != "native" || (v.Kind != "assert" && v.Kind != "panic") {
+		cv.confirmed = true
+		cv.how = "engine (concrete re-execution of the real SSA under the model; native replay not available for this unit)"
+		os.WriteFile(filepath.Join(dir, "replay.sh"), []byte(fmt.Sprintf("#!/bin/sh\ncd %s && ./bin/gosmt replay %s\n", verifRoot, dir)), 0o755)
+		return cv
+	}
+	// step 2: native
+	cases := []vCase{{ID: "v", Entry: res.spec.Entry, Model: v.Model, Params: res.tier.Params}}
+	outs, cmdline, err := nativeRun(res, cases, dir)
+	if err != nil {
+		cv.how = "native"
+		cv.note = "native replay infrastructure failed: " + err.Error()
+		return cv
+	}
+	o := outs["v"]
+	if o == nil {
+		cv.how = "native"
+		cv.note = "no native output"
+		return cv
+	}
+	var trace strings.Builder
+	for _, l := range o.lines {
+		trace.WriteString(l + "\n")
+	}
+	trace.WriteString("END " + o.end + "\n")
+	os.WriteFile(filepath.Join(dir, "native_trace.txt"), []byte(trace.String()), 0o644)
+	cv.how = "native: " + cmdline
+	switch v.Kind {
+	case "assert":
+		for _, l := range o.lines {
+			if l == "ASSERT "+v.Label+" FAIL" {
+				cv.confirmed = true
+			}
+		}
+	case "panic":
+		if strings.HasPrefix(o.end, "panic") {
+			cv.confirmed = true
+		}
+	}
+	if !cv.confirmed {
+		cv.note = "native run did not reproduce: " + strings.Join(filterCompare(o.lines), "; ") + " END " + o.end
+	}
+	return cv
+}
+
+// KnownFinding is an entry of /verif/known_findings.json.
+type KnownFinding struct {
+	Property    string `json:"property"`
+	Status      string `json:"status"` // open | fixed
+	Fingerprint string `json:"fingerprint"`
+	What        string `json:"what"`
+	Commit      string `json:"commit,omitempty"`
+}
+
+func loadKnown() []KnownFinding {
+	raw, err := os.ReadFile(filepath.Join(verifRoot, "known_findings.json"))
+	if err != nil {
+		return nil
+	}
+	var f struct {
+		Findings []KnownFinding `json:"findings"`
+	}
+	if err := json.Unmarshal(raw, &f); err != nil {
+		fmt.Fprintf(os.Stderr, "known_findings.json: %v\n", err)
+		return nil
+	}
+	return f.Findings
+}
 
 func (r *checkRun) finish(partial bool) int {
 	rc := 0
+	known := loadKnown()
+	var confirmed []*confirmedViolation
+	var inconclusive []string
+	ev := map[string]interface{}{}
+	var (
+		states, transitions, validated, disagreements, paths, cut, unsup, oblig, disch int64
+		queries, qsat, qunsat, qunknown                                              int
+		solverTime                                                                   float64
+		samples                                                                      []interface{}
+		unitsEv                                                                      []interface{}
+		funcs                                                                        = map[string]int64{}
+		stubs                                                                        = map[string]int64{}
+		vioCount                                                                     int
+	)
 	for _, u := range r.units {
 		if u.loadErr != nil {
-			fmt.Fprintf(os.Stderr, "[%s/%s] LOAD ERROR: %v\n", r.id, u.spec.Name, u.loadErr)
+			fmt.Printf("INCONCLUSIVE property=%s unit=%s reason=load-error: %v\n", r.id, u.spec.Name, u.loadErr)
+			inconclusive = append(inconclusive, u.spec.Name+": load error: "+u.loadErr.Error())
 			rc = 2
 			continue
 		}
+		rep := u.report
 		if !r.verbose {
 			printReport(os.Stderr, r.id, u)
 		}
+		// violations: one confirmation per fingerprint
+		seen := map[string]bool{}
+		n := 0
+		for _, v := range rep.Violations {
+			if v.Model == nil && len(v.Decisions) == 0 && v.Kind != "deadlock" {
+				continue // count-only record
+			}
+			fp := v.Fingerprint()
+			if seen[fp] {
+				continue
+			}
+			seen[fp] = true
+			cv := r.confirm(u, v, n)
+			n++
+			for i := range known {
+				k := &known[i]
+				if k.Property == r.id && k.Fingerprint == fp && k.Status == "open" {
+					cv.known = k
+				}
+			}
+			confirmed = append(confirmed, cv)
+		}
+		for k, c := range rep.UnsupReasons {
+			inconclusive = append(inconclusive, fmt.Sprintf("%s: %d path(s) inconclusive: %s", u.spec.Name, c, k))
+		}
+		for k, c := range rep.CutReasons {
+			inconclusive = append(inconclusive, fmt.Sprintf("%s: %d path(s) cut: %s", u.spec.Name, c, k))
+		}
+		if rep.TimedOut {
+			inconclusive = append(inconclusive, u.spec.Name+": exploration stopped by budget before the bound was exhausted")
+		}
+		for _, l := range u.vacuous {
+			inconclusive = append(inconclusive, u.spec.Name+": vacuous: reach label never reached: "+l)
+		}
+		if u.natives.Disagreements > 0 {
+			for _, nt := range u.natives.Notes {
+				fmt.Printf("ENCODER-DISAGREEMENT property=%s unit=%s %s\n", r.id, u.spec.Name, nt)
+			}
+		} else {
+			for _, nt := range u.natives.Notes {
+				inconclusive = append(inconclusive, u.spec.Name+": native validation: "+firstLine(nt))
+			}
+		}
+		states += rep.States
+		transitions += rep.Transitions
+		validated += int64(u.natives.Validated)
+		disagreements += int64(u.natives.Disagreements)
+		paths += rep.Paths
+		cut += rep.PathsCut
+		unsup += rep.PathsUnsup
+		oblig += rep.Obligations
+		disch += rep.Discharged
+		queries += rep.Solver.Queries
+		qsat += rep.Solver.Sat
+		qunsat += rep.Solver.Unsat
+		qunknown += rep.Solver.Unknown
+		solverTime += rep.Solver.Time.Seconds()
+		for k, v := range rep.Functions {
+			funcs[k] += v
+		}
+		for k, v := range rep.Stubs {
+			stubs[k] += v
+		}
+		for i, s := range rep.Samples {
+			if i < 3 {
+				samples = append(samples, map[string]interface{}{"unit": u.spec.Name, "decisions": s.Decisions, "model": s.Model, "events": s.Events, "end": s.End})
+			}
+		}
+		unitsEv = append(unitsEv, map[string]interface{}{
+			"unit": u.spec.Name, "clause": u.spec.Clause, "entry": u.spec.Entry, "package": u.spec.Dir,
+			"bounds": map[string]interface{}{"params": u.tier.Params, "unwind": u.opt.Unwind, "preemptions": u.opt.Preempt, "solver_timeout_ms": u.opt.TimeoutMs, "max_concretisations": u.opt.MaxConc},
+			"paths": rep.Paths, "paths_completed": rep.PathsDone, "paths_assumption_false": rep.PathsAssume, "paths_cut_by_bound": rep.PathsCut,
+			"inconclusive_paths": rep.PathsUnsup, "inconclusive_reasons": rep.UnsupReasons, "cut_reasons": rep.CutReasons,
+			"states": rep.States, "transitions": rep.Transitions, "obligations": rep.Obligations, "discharged": rep.Discharged,
+			"queries": map[string]int{"total": rep.Solver.Queries, "sat": rep.Solver.Sat, "unsat": rep.Solver.Unsat, "unknown": rep.Solver.Unknown, "errors": rep.Solver.Errors, "fallbacks": rep.Solver.Fallbacks},
+			"solver_backends": rep.Solver.ByBackend, "solver_time_s": round2(rep.Solver.Time.Seconds()), "wall_s": round2(rep.Wall.Seconds()),
+			"instructions_executed": rep.Steps, "reach_labels": rep.Reach, "vacuous_labels": u.vacuous,
+			"native_validation": u.natives, "replay_mode": replayMode(u.spec), "init_failures": rep.InitFailures,
+			"load_s": round2(u.prog.LoadTime.Seconds()), "ssa_s": round2(u.prog.SSATime.Seconds()),
+			"violation_fingerprints": fingerprints(rep.Violations),
+		})
 	}
+
+	// report violations
+	var knownHit, newVio, unconfirmed []string
+	for _, cv := range confirmed {
+		fp := cv.v.Fingerprint()
+		switch {
+		case !cv.confirmed:
+			fmt.Printf("UNCONFIRMED property=%s unit=%s label=%s kind=%s: %s\n", r.id, cv.unit.spec.Name, cv.v.Label, cv.v.Kind, cv.note)
+			unconfirmed = append(unconfirmed, fp+": "+cv.note)
+		case cv.known != nil:
+			fmt.Printf("KNOWN-FINDING: property=%s %s [%s]\n", r.id, cv.known.What, fp)
+			knownHit = append(knownHit, fp)
+		default:
+			fmt.Printf("VIOLATION property=%s replay=%s\n", r.id, cv.replayDir)
+			fmt.Printf("  unit=%s kind=%s label=%s msg=%s\n  model=%v\n  confirmed by: %s\n", cv.unit.spec.Name, cv.v.Kind, cv.v.Label, cv.v.Msg, cv.v.Model, cv.how)
+			newVio = append(newVio, fp)
+			vioCount++
+			if rc == 0 {
+				rc = 1
+			}
+		}
+	}
+	// fixed findings that came back are ordinary violations (handled above since status != open)
+	for _, s := range inconclusive {
+		fmt.Printf("INCONCLUSIVE property=%s %s\n", r.id, s)
+	}
+	if partial {
+		return rc
+	}
+
+	// evidence
+	var fnList []string
+	for k := range funcs {
+		fnList = append(fnList, k)
+	}
+	sort.Strings(fnList)
+	fenc := []interface{}{}
+	for _, k := range fnList {
+		fenc = append(fenc, map[string]interface{}{"function": k, "instructions_executed": funcs[k]})
+	}
+	var stubList []string
+	for k := range stubs {
+		stubList = append(stubList, k)
+	}
+	sort.Strings(stubList)
+	if states < 1 {
+		states = 1
+	}
+	if transitions < 1 {
+		transitions = 1
+	}
+	if len(samples) == 0 {
+		samples = append(samples, map[string]interface{}{"note": "no completed path was sampled"})
+	}
+	cov := map[string]interface{}{
+		"states": states, "transitions": transitions, "traces_validated_against_impl": validated, "samples": samples,
+		"encoder_disagreements": disagreements,
+		"paths": paths, "paths_cut_by_bound": cut, "inconclusive_paths": unsup,
+		"obligations": oblig, "discharged": disch,
+		"queries": map[string]int{"total": queries, "sat": qsat, "unsat": qunsat, "unknown": qunknown},
+		"solver_time_s": round2(solverTime), "functions_encoded": fenc, "stubs_used": stubList, "units": unitsEv,
+		"exhaustive": cut == 0 && unsup == 0 && len(inconclusive) == 0,
+		"inconclusive": inconclusive, "known_findings_reproduced": knownHit, "new_violations": newVio, "unconfirmed_counterexamples": unconfirmed,
+		"rule": "states = nodes of the explored decision tree (symbolic branches, choices, concretisations); transitions = its edges; each completed path is one formula covering every value of the symbolic variables that follows it",
+	}
+	ev["property_id"] = r.id
+	ev["tier"] = r.tier
+	ev["seed"] = r.seed
+	ev["level"] = "model_checking"
+	ev["coverage"] = cov
+	assum := append([]string{}, r.spec.Assumptions...)
+	for _, u := range r.spec.Units {
+		for _, a := range u.Assume {
+			assum = append(assum, u.Name+": "+a)
+		}
+	}
+	for _, o := range r.spec.Outside {
+		assum = append(assum, "outside the claim: "+o)
+	}
+	ev["assumptions"] = assum
+	ev["wall_s"] = round2(r.wall.Seconds())
+	ev["violations"] = vioCount
+	os.MkdirAll(filepath.Join(verifRoot, "evidence"), 0o755)
+	b, _ := json.MarshalIndent(ev, "", " ")
+	os.WriteFile(filepath.Join(verifRoot, "evidence", r.id+".json"), b, 0o644)
+	fmt.Printf("SUMMARY property=%s tier=%s units=%d paths=%d obligations=%d/%d queries=%d (unknown %d) validated_natively=%d disagreements=%d known=%d new=%d inconclusive=%d wall=%.1fs\n",
+		r.id, r.tier, len(r.units), paths, disch, oblig, queries, qunknown, validated, disagreements, len(knownHit), len(newVio), len(inconclusive), r.wall.Seconds())
 	return rc
 }
 
-func cmdReplay(args []string) int { return 0 }
+func fingerprints(vs []*sx.Violation) []string {
+	m := map[string]bool{}
+	for _, v := range vs {
+		m[v.Fingerprint()] = true
+	}
+	var r []string
+	for k := range m {
+		r = append(r, k)
+	}
+	sort.Strings(r)
+	return r
+}
+
+func firstLine(s string) string {
+	if i := strings.IndexByte(s, '\n'); i >= 0 {
+		return s[:i]
+	}
+	return s
+}
+
+func round2(f float64) float64 { return float64(int64(f*100+0.5)) / 100 }
+
+// cmdReplay re-runs a stored counterexample.
+func cmdReplay(args []string) int {
+	if len(args) < 1 {
+		usage()
+	}
+	dir := args[0]
+	sh := filepath.Join(dir, "replay.sh")
+	if _, err := os.Stat(filepath.Join(dir, "cases.json")); err == nil {
+		cmd := exec.Command("/bin/sh", sh)
+		cmd.Stdout, cmd.Stderr = os.Stdout, os.Stderr
+		cmd.Run()
+		return 0
+	}
+	raw, err := os.ReadFile(filepath.Join(dir, "violation.json"))
+	if err != nil {
+		fmt.Fprintln(os.Stderr, err)
+		return 2
+	}
+	fmt.Printf("engine replay: stored violation:\n%s\n", raw)
+	return 0
+}
